@@ -163,9 +163,41 @@ theorem credential_never_panics (E : Env) (K : KeyEnv) (hE : EnvOK E) (w0 : Worl
     · split at h
       · cases h
       · rename_i kid _
-        obtain ⟨vc, rec', hup⟩ := updateCredential_ok E hE now row (n.revsOf (n.url issuer page)) kid hlen
-        rw [hup] at h
-        cases h
+        cases hsf : E.signFails with
+        | false =>
+          obtain ⟨vc, rec', hup⟩ := updateCredential_ok E hE hsf now row (n.revsOf (n.url issuer page)) kid hlen
+          rw [hup] at h
+          cases h
+        | true =>
+          have hlen' : (newBits E.lenBytes).length = E.lenBytes := by simp [newBits]
+          obtain ⟨bs, hset, _, _⟩ := setAll_spec (n.revsOf (n.url issuer page)) (newBits E.lenBytes)
+            (by intro i hi; rw [hlen']; have := hlen i hi; have := hE.idx; omega)
+          simp [updateCredential, hset, hsf] at h
+
+/-- `sign_failure_is_atomic`: when the injected `Sign` fails (key store outage; `ResolveKey` before the transaction still
+    worked) `Revoke` does not succeed — it returns the error and, being an error, leaves no revocation row and no changed
+    list —; `Credential` either serves the stored list unchanged or fails; the write half of `Entry` never creates a page.
+    (A later, healthy call then behaves as if the failed one had not happened: all other theorems apply to the history
+    without it.) -/
+theorem sign_failure_is_atomic (E : Env) (hf : E.signFails = true) (now : Nat) (n : Node) :
+    (∀ credId e n', revoke E now n credId e ≠ .ok n') ∧
+    (∀ issuer page vc n', credential E now n issuer page = .ok (vc, n') → n' = n ∧ ∃ rec, n.cred? (n.url issuer page) = some rec ∧ vc = rec.raw) ∧
+    (∀ issuer kid row nr rec, entryDecide E now n issuer kid row ≠ .create nr rec) := by
+  refine ⟨?_, ?_, ?_⟩
+  · intro credId e n' h
+    obtain ⟨_, row, kid, vc, rec, _, _, _, _, _, _, hup, _⟩ := revoke_ok h
+    exact updateCredential_sign_fails hf _ _ _ _ vc rec hup
+  · intro issuer page vc n' h
+    obtain ⟨row, _, h1 | h1⟩ := credential_ok h
+    · obtain ⟨rec, e, hrec, _, _, hvc, hn⟩ := h1
+      exact ⟨hn, rec, hrec, hvc⟩
+    · obtain ⟨kid, rec, _, hup, _⟩ := h1
+      exact absurd hup (updateCredential_sign_fails hf _ _ _ _ vc rec)
+  · intro issuer kid row nr rec h
+    obtain ⟨_, _, _, _, ⟨vc, hup⟩, _⟩ := entryDecide_create' h
+    exact updateCredential_sign_fails hf _ _ _ _ vc rec hup
+
+example : revoke { exEnv with signFails := true } 0 (run exEnv exK exWorld [.entryTx false "did:a" none]).a "did:a#1" exEntry = .err "sign" := by decide
 
 /-! ### 4. a set bit is never cleared; revocation is idempotent -/
 
@@ -705,6 +737,16 @@ theorem fact_issuer_ambassador_store_sites :
     Facts.C11.ambassadorConfigure = ["err := n.networkClient.Subscribe(\"vcr_vcs\",n.handleNetworkVCs,n.networkClient.WithPersistency(),network.WithSelectionFilter(<*ast.FuncLit>))", "return event.Type == dag.PayloadEventType && event.Transaction.PayloadType() == types.VcDocumentType", "if err != nil", "return err", "return n.networkClient.Subscribe(\"vcr_revocations\",n.handleNetworkRevocations,n.networkClient.WithPersistency(),network.WithSelectionFilter(<*ast.FuncLit>))", "return event.Type == dag.PayloadEventType && event.Transaction.PayloadType() == types.RevocationLDDocumentType"] ∧
     Facts.C11.leiaGetRevocations = ["query := leia.New(leia.Eq(leia.NewJSONPath(credential.RevocationSubjectPath),leia.MustParseScalar(id.String())))", "results,err := s.revocationCollection().Find(context.Background(),query)", "if err != nil", "return nil,fmt.Errorf(\"error while getting revocation by id: %w\",err)", "if len(results) == 0", "return nil,ErrNotFound", "revocations := make(<*ast.ArrayType>,len(results))", "range results", "revocation := &credential.Revocation{…}", "if err != nil", "err := json.Unmarshal(result,revocation)", "return nil,err", "revocations[i] = revocation", "return revocations,nil"] ∧
     Facts.C11.verifierIsRevoked = ["_,err := v.store.GetRevocations(credentialID)", "if err != nil", "if errors.Is(err,ErrNotFound)", "return false,nil", "return false,err", "return true,nil"] := by
+  decide
+
+set_option maxRecDepth 1000000 in
+/-- every statement of `Revoke`, `Credential` and `updateCredential` (assignments, conditions, returns in source order): in
+    particular an error of `updateCredential` / `buildAndSignVC` is RETURNED from the transaction function (`return err`,
+    `return nil,nil,err`), so a failing `Sign` rolls the revocation row back instead of committing a stale list -/
+theorem fact_revoke_credential_statements :
+    Facts.C11.revokeStmts = ["statusListIndex,err := strconv.Atoi(entry.StatusListIndex)", "if err != nil", "return err", "if entry.StatusPurpose != StatusPurposeRevocation", "return errUnsupportedPurpose", "if !cs.isManaged(entry.StatusListCredential)", "return errNotFound", "err = cs.db.Model(&credentialIssuerRecord{…}).Select(\"issuer\").First(&issuerStr,\"subject_id = ?\",entry.StatusListCredential).Error", "if err != nil", "return err", "issuerDID,err := did.ParseDID(issuerStr)", "if err != nil", "return err", "kid,_,err := cs.ResolveKey(*issuerDID,nil,resolver.AssertionMethod)", "if err != nil", "return err", "return cs.db.Transaction(<*ast.FuncLit>)", "err = lockCredentialRecord(tx,entry.StatusListCredential)", "if err != nil", "return err", "revocation := revocationRecord{…}", "err = tx.Create(&revocation).Error", "if err != nil", "if errors.Is(err,gorm.ErrDuplicatedKey)", "return errRevoked", "return err", "issuerRecord := new(credentialIssuerRecord)", "err = tx.Preload(\"Revocations\").First(issuerRecord,\"subject_id = ?\",entry.StatusListCredential).Error", "if err != nil", "if errors.Is(err,gorm.ErrRecordNotFound)", "return errNotFound", "return err", "if statusListIndex < 0 || statusListIndex > issuerRecord.LastIssuedIndex", "return ErrIndexNotInBitstring", "transactionContext := context.WithValue(ctx,storage.TransactionKey{…},tx)", "_,credRecord,err := cs.updateCredential(transactionContext,issuerRecord,kid)", "if err != nil", "return err", "return tx.Clauses(clause.OnConflict{…}).Create(credRecord).Error"] ∧
+    Facts.C11.credentialStmts = ["statusListCredentialURL := cs.statusListURL(issuerDID,page)", "if !cs.isManaged(statusListCredentialURL)", "return nil,errNotFound", "credRecord,err := cs.loadCredential(statusListCredentialURL)", "if err == nil && time.Now().Add(minTimeUntilExpired).Before(time.Unix(*credRecord.Expires,0))", "cred,err := vc.ParseVerifiableCredential(credRecord.Raw)", "if err == nil", "return cred,nil", "info := audit.InfoFromContext(ctx)", "if info != nil", "module,operation,ok := strings.Cut(info.Operation,\".\")", "if ok", "ctx = audit.Context(ctx,\"_system_signing_expired_statuslist2021credential\",module,operation)", "kid,_,err := cs.ResolveKey(issuerDID,nil,resolver.AssertionMethod)", "if err != nil", "return nil,err", "err = cs.db.Transaction(<*ast.FuncLit>)", "err = lockCredentialRecord(tx,statusListCredentialURL)", "if err != nil", "return err", "issuerRecord := new(credentialIssuerRecord)", "err = tx.Preload(\"Revocations\").First(issuerRecord,\"subject_id = ?\",statusListCredentialURL).Error", "if err != nil", "return err", "transactionContext := context.WithValue(ctx,storage.TransactionKey{…},tx)", "cred,credRecord,err = cs.updateCredential(transactionContext,issuerRecord,kid)", "if err != nil", "return err", "err = tx.Clauses(clause.OnConflict{…}).Create(credRecord).Error", "if err != nil", "return nil", "if err != nil", "return nil,err", "return cred,nil"] ∧
+    Facts.C11.updateCredentialStmts = ["issuerDID,err := did.ParseDID(issuerRecord.Issuer)", "if err != nil", "return nil,nil,err", "expanded := newBitstring()", "range issuerRecord.Revocations", "if err != nil", "err = expanded.setBit(rev.StatusListIndex,true)", "return nil,nil,err", "encodedList,err := compress(*expanded)", "if err != nil", "return nil,nil,err", "credSubject := &StatusList2021CredentialSubject{…}", "statusListCredential,err := cs.buildAndSignVC(ctx,*issuerDID,*credSubject,kid)", "if err != nil", "return nil,nil,err", "expires := statusListCredential.ExpirationDate.Unix()", "credRecord := &credentialRecord{…}", "return statusListCredential,credRecord,nil"] := by
   decide
 
 end Nuts.C11.Props
